@@ -81,24 +81,30 @@ fn c13_global_merge_rule() {
     kani::cover!(pab.is_none() && same_tx(&a, &b));
 }
 
-//@ {"p":"C13","tier":"quick","clause":"Global::merge is independent of grouping: merge(merge(a,b),c) and merge(a,merge(b,c)) agree (both fail or both give the same record)","bounds":"all field values for three records; proprietary maps empty","covers":1,"t":1800,"unwindset":{"collections::btree.*":2}}
+/// The complete reference for Global::merge on records with empty proprietary maps, as decided
+/// equal to the real function for ALL pairs by c13_global_merge_rule.
+fn ref_merge(a: &G, b: &G) -> Option<G> {
+    if !same_tx(a, b) {
+        return None;
+    }
+    flags_rule(a.flags, b.flags).map(|f| G { flags: f, ..*a })
+}
+fn g_eq(a: &Option<G>, b: &Option<G>) -> bool {
+    match (a, b) {
+        (None, None) => true,
+        (Some(x), Some(y)) => same_tx(x, y) && x.flags == y.flags,
+        _ => false,
+    }
+}
+
+//@ {"p":"C13","tier":"quick","clause":"Global::merge is independent of grouping: the reference function that c13_global_merge_rule shows EQUAL to Global::merge for all pairs is associative over all triples (a direct harness with four real merges ran out of memory; the two obligations together give associativity of the real function)","bounds":"all field values for three records","assume":"encodes no function of the repository: a lemma about the reference used by c13_global_merge_rule","covers":1,"t":600}
 #[kani::proof]
-#[kani::unwind(4)]
 fn c13_global_merge_assoc() {
     let (a, b, c) = (any_g(), any_g(), any_g());
-    let ab_c = match hk::merge_global(mk(&a), mk(&b)) {
-        Some(g) => hk::merge_global(g, mk(&c)),
-        None => None,
-    };
-    let p1 = parts(&ab_c);
-    core::mem::forget(ab_c);
-    let a_bc = match hk::merge_global(mk(&b), mk(&c)) {
-        Some(g) => hk::merge_global(mk(&a), g),
-        None => None,
-    };
-    assert!(p1 == parts(&a_bc));
-    core::mem::forget(a_bc);
-    kani::cover!(p1.is_some() && a.flags != c.flags && b.flags != c.flags);
+    let ab_c = ref_merge(&a, &b).and_then(|x| ref_merge(&x, &c));
+    let a_bc = ref_merge(&b, &c).and_then(|x| ref_merge(&a, &x));
+    assert!(g_eq(&ab_c, &a_bc));
+    kani::cover!(ab_c.is_some() && a.flags != c.flags && b.flags != c.flags);
 }
 
 fn opt_u32() -> Option<u32> {
@@ -142,7 +148,7 @@ fn c13_merge_optional_algebra() {
     kani::cover!(ab_c.is_some() && a.is_none() && b.is_none() && c.is_some());
 }
 
-//@ {"p":"C13","tier":"quick","clause":"merge_map (the helper every PCZT map field is merged with): fails iff some key is present on both sides with different values; otherwise the result is the union and keeps every entry either side carried; commutative","bounds":"maps over u8 keys/values with at most 2 entries per side, symbolic keys and values","covers":2,"t":900,"unwindset":{"first_leaf_edge.0":2,"deallocating_next.0":2,"deallocating_end.0":2,"search_tree.0":2}}
+//@ {"p":"C13","tier":"experimental","clause":"(did not finish in 900 s: BTreeMap with symbolic keys) merge_map (the helper every PCZT map field is merged with): fails iff some key is present on both sides with different values; otherwise the result is the union and keeps every entry either side carried; commutative","bounds":"maps over u8 keys/values with at most 2 entries per side, symbolic keys and values","covers":2,"t":900,"unwindset":{"first_leaf_edge.0":2,"deallocating_next.0":2,"deallocating_end.0":2,"search_tree.0":2}}
 #[kani::proof]
 #[kani::unwind(6)]
 fn c13_merge_map_algebra() {
@@ -201,7 +207,7 @@ fn opt_bytes(tag: u8) -> Option<Vec<u8>> {
     }
 }
 
-//@ {"p":"C13","tier":"quick","clause":"transparent bundle merge, one input and one output per side describing the same transaction: succeeds iff no optional field conflicts; every optional field (sequence, both required lock times, script_sig, redeem scripts, user address) present on either side is present and equal in the result; different effecting fields (prevout, value, script_pubkey, sighash type) fail; the outcome is independent of the order","bounds":"1 input + 1 output per bundle; Option presence bits and u32 values symbolic; byte-vector fields 2 bytes; maps empty; both globals non-modifiable","covers":3,"t":1800,"unwindset":{"collections::btree.*":2}}
+//@ {"p":"C13","tier":"experimental","clause":"(did not finish in 1800 s: seven BTreeMaps per input) transparent bundle merge, one input and one output per side describing the same transaction: succeeds iff no optional field conflicts; every optional field (sequence, both required lock times, script_sig, redeem scripts, user address) present on either side is present and equal in the result; different effecting fields (prevout, value, script_pubkey, sighash type) fail; the outcome is independent of the order","bounds":"1 input + 1 output per bundle; Option presence bits and u32 values symbolic; byte-vector fields 2 bytes; maps empty; both globals non-modifiable","covers":3,"t":1800,"unwindset":{"collections::btree.*":2}}
 #[kani::proof]
 #[kani::unwind(6)]
 fn c13_transparent_merge() {
